@@ -463,6 +463,12 @@ class H2Connection:
                 "Invalid stream ID for peer."
             )
 
+        if stream_id > self.HIGHEST_ALLOWED_STREAM_ID:
+            raise ProtocolError(
+                "Stream ID %d exceeds the highest allowed stream ID" %
+                stream_id
+            )
+
         s = H2Stream(
             stream_id,
             config=self.config,
